@@ -19,7 +19,20 @@ def scenarios(rng, n, tier):
     for _ in range(n):
         opts = {"calls": [0, 0, 1, 2, 3, 4, 5, 5], "p_single": 0.8, "p_skip": 0.2, "p_nodelay": 0.1, "p_stop": 0.15,
                 "p_limit": 0.7, "max_jobs": 4, "p_force": 0.2, "p_start": 0.3, "max_polls": 12, "p_raise": 0.2}
-        yield scen.gen_life(rng, opts)
+        scn = scen.gen_life(rng, opts)
+        if rng.random() < 0.25:
+            # several jobs exhaust in ONE call while callbacks unregister their own / a sibling job: each exhausted job is
+            # still removed by that very call
+            nk = sum(1 for o in scn["ops"] if o["op"] == "sch")
+            for o in scn["ops"]:
+                if o["op"] == "sch" and o["call"] != 5 and rng.random() < 0.7:
+                    o["max_att"] = 1
+            for e in scn["ops"]:
+                if e["op"] == "exec" and nk >= 2 and rng.random() < 0.6:
+                    e["force"] = True
+                    ks = rng.sample(range(nk), rng.randint(1, min(2, nk)))
+                    e["scripts"] = {str(k): [{"op": "del", "key": (k if rng.random() < 0.6 else rng.randrange(nk))}] for k in ks}
+        yield scn
 
 
 def project(line):
@@ -52,6 +65,12 @@ def specs(r):
                 count[k] = count.get(k, 0) + 1
         if o["op"] == "del" and ob["res"][0] == "u":
             deleted.add(o["key"])
+        if o["op"] == "exec":
+            # jobs a callback of this call unregistered (scripted delete_job) are deleted, not retired
+            for cops in (o.get("scripts") or {}).values():
+                for c in cops:
+                    if c.get("op") == "del":
+                        deleted.add(c["key"])
         for k, o2 in jobs.items():
             if k not in ob.get("jobs", {}):
                 continue
